@@ -6,4 +6,4 @@ git -C /repo diff --quiet || { echo "/repo has uncommitted changes"; exit 2; }
 git -C /repo apply $P || { echo "patch does not apply"; exit 2; }
 for p in "$@"; do ./check $p 2>&1 | grep -E "VIOLATION|KNOWN|quick|ERROR" | cut -c1-230; done
 git -C /repo checkout -- .
-git -C /repo diff --quiet && echo "repo restored"
+git -C /repo diff --quiet && echo "repo restored"; make -s -C /verif/harness -j2 >/dev/null 2>&1
